@@ -62,8 +62,16 @@ SPECS = {
     # factors that need the caller's context (a function and a vector that are not in the data)
     "y ~ dbl(x) | z + cvec": (lambda: Formula("y ~ dbl(x) | z + cvec"), "yxz"),
     "Formula(('cvec:z', 'dbl(x)'))": (lambda: Formula(("cvec:z", "dbl(x)")), "xz"),
+    # a factor held in a plain Python list (dropping rows from a list goes through its own code path), built before / between other parts
+    "y ~ clist | x | z": (lambda: Formula("y ~ clist | x | z"), "yxz"),
+    "Formula(('x', 'clist + z', 'y'))": (lambda: Formula(("x", "clist + z", "y")), "yxz"),
+    # a multi-column numeric factor that spans the intercept: reduced in one part, needed whole in a later one (w never holds nulls here)
+    "y ~ bs(w, df=4, include_intercept=True) + x | 0 + bs(w, df=4, include_intercept=True)":
+        (lambda: Formula("y ~ bs(w, df=4, include_intercept=True) + x | 0 + bs(w, df=4, include_intercept=True)"), "yx"),
+    "Formula(('bs(w, df=4, include_intercept=True)', 'z:bs(w, df=4, include_intercept=True)'))":
+        (lambda: Formula(("bs(w, df=4, include_intercept=True)", "z:bs(w, df=4, include_intercept=True)")), "z"),
 }
-CTX = {"cvec": np.array([3.0, 1.0, 4.0, 1.5]), "dbl": lambda v: v * 2}
+CTX = {"cvec": np.array([3.0, 1.0, 4.0, 1.5]), "dbl": lambda v: v * 2, "clist": [2.5, 0.5, 7.0, 1.25]}
 
 
 def leaves(obj, path=()):
